@@ -119,7 +119,23 @@ func runOne(t *testing.T, p Property, tp *Tape, opt RunOpt) (out *RunOut) {
 		}()
 		synctest.Test(t, func(t *testing.T) {
 			t0 := time.Now() // the bubble's fake clock
-			out = p.Run(tp, opt)
+			func() {
+				// the standard libraries (or a check's own definitions) fail to load into a fresh environment: on the
+				// unchanged tree they never do; when they do, earlier runs of this process have left something behind
+				// in the code under test. A violation like any other (it has to reproduce to count).
+				defer func() {
+					if r := recover(); r != nil {
+						msg := fmt.Sprint(r)
+						if strings.Contains(msg, " setup: ") || strings.Contains(msg, "library load failed") {
+							out = &RunOut{prop: p.ID(), Stats: map[string]int64{}, Nontrivial: true,
+								Violations: []Violation{{p.ID() + ".panic", "environment-set-up-fails", "a fresh environment could not be prepared: " + msg}}}
+							return
+						}
+						panic(r)
+					}
+				}()
+				out = p.Run(tp, opt)
+			}()
 			// properties that do not use the scheduler (C03, C18) still spend simulated time in budget-timeout faults
 			if el := time.Since(t0); out != nil && el > out.SimTime {
 				out.SimTime = el
